@@ -114,6 +114,8 @@ class Registry:
         self._next_cid = 1
         self.aliases = {}    # annotation text -> type string
         self.unbounded = set()   # Real-valued fields that may hold Decimal('Infinity')
+        self.sig_cids = {}
+        self.shared_fields = set()   # container-typed fields exempt from the ownership discipline
 
     def klass(self, name, qualname=None, **kw):
         fields = {k: (self.parse(v) if isinstance(v, str) and "$" not in v else v) for k, v in (kw.pop("fields", None) or {}).items()}
@@ -144,8 +146,12 @@ class Registry:
                 kd = KlassDecl(name, None, kind="list", K="Int", V=self.parse(args[0]))
             else:
                 kd = KlassDecl(name, None, kind="set", K=self.parse(args[0]), V="Bool")
-            kd.cid = self._next_cid
-            self._next_cid += 1
+            # python generics are erased: builtin containers with the same (kind, key sort, value sort) share one class id
+            sig = (kd.kind, str(sort_of(strip_opt(kd.K))), str(sort_of(strip_opt(kd.V))))
+            if sig not in self.sig_cids:
+                self.sig_cids[sig] = self._next_cid
+                self._next_cid += 1
+            kd.cid = self.sig_cids[sig]
             self.klasses[name] = kd
             return kd
         raise KeyError("unknown class %r in sidecar registry" % name)
